@@ -62,11 +62,12 @@ type bodyOut struct {
 	GotInterim  []interimOut `json:"got_interim"`
 	// when the reply arrived with "Content-Encoding: gzip" and is a gzip stream: what it decodes to. Whether that
 	// coding is fabio's own (to be undone before comparing) or the upstream's (to be left alone) is decided in Lean.
-	RepTrailer  []kv `json:"rep_trailer"`  // trailer fields the upstream sent
-	GotTrailer  []kv `json:"got_trailer"`  // … the client received
-	DecOK  bool   `json:"dec_ok"`
-	DecLen int    `json:"dec_len"`
-	DecSHA string `json:"dec_sha"`
+	RepTrailer []kv   `json:"rep_trailer"` // trailer fields the upstream sent
+	GotTrailer []kv   `json:"got_trailer"` // … the client received
+	Attempts   int    `json:"attempts"`    // measurements needed (see exchange)
+	DecOK      bool   `json:"dec_ok"`
+	DecLen     int    `json:"dec_len"`
+	DecSHA     string `json:"dec_sha"`
 }
 
 type interimOut struct {
@@ -267,29 +268,17 @@ func runBody(raw json.RawMessage) (interface{}, error) {
 	if in.Gzip {
 		cfg.GZIPContentTypes = gzipTypes
 	}
-	// A transfer that breaks off (seen rarely, only with many harness processes running side by side) is
-	// tried again; an error that persists is reported.
-	var resp *clientResp
-	var err error
-	for attempt := 0; attempt < 3; attempt++ {
-		if err = e.installCfg(cfg, in.Cfg, cmd, rep, nil); err != nil {
-			return nil, err
-		}
-		if resp, err = e.roundTrip(in.Method, b.Bytes(), false); err == nil {
-			break
-		}
-	}
+	resp, hits, up, attempts, err := e.exchange(cfg, in.Cfg, cmd, rep, nil, in.Method, b.Bytes(), false)
 	if err != nil {
 		return nil, err
 	}
-	hits, up := e.seen()
 	got := resp.Raw
 	gotHdr := e2e(resp.Hdr)
 	wantHdr := e2e(groupHdr(rh))
 	out := bodyOut{Hits: hits, SentLen: len(body), SentSHA: sha(body), Status: resp.Status, RepLen: len(rbody), RepSHA: sha(rbody),
 		GotLen: len(got), GotSHA: sha(got), GotHdr: gotHdr, RepHdr: wantHdr,
 		SentInterim: []interimOut{}, GotInterim: []interimOut{},
-		RepTrailer: orEmpty(groupHdr(in.RTrailer)), GotTrailer: orEmpty(resp.Trailer)}
+		RepTrailer: orEmpty(groupHdr(in.RTrailer)), GotTrailer: orEmpty(resp.Trailer), Attempts: attempts}
 	for _, x := range resp.Hdr {
 		if x.K == "Content-Encoding" && len(x.V) == 1 && x.V[0] == "gzip" && len(got) > 0 {
 			if zr, err := gzip.NewReader(bytes.NewReader(got)); err == nil {
